@@ -302,10 +302,12 @@ impl PidTracking {
 
         self.total_count += 1;
         if mode != 2 {
-            // Not read-only
-            self.writer_count += 1;
+            // Not read-only. (The counters live in memory shared with other
+            // processes: a corrupt writer count must not overflow here.)
+            self.writer_count = self.writer_count.saturating_add(1);
         }
-        self.generation += 1;
+        // The generation only has to change with every modification: it wraps.
+        self.generation = self.generation.wrapping_add(1);
         self.state = 1;
 
         Some(slot)
